@@ -12,11 +12,15 @@ CONSTANTS
   ProbeNs <- GProbesRot
   ProbeUids <- GUidsRot
   MaxOld = 2
+  Transports <- TrIP
+  ScmpTypes <- ScmpNone
   Exhaustive = FALSE
   Biases <- BiasLow
   TickPct = 35
   ProbePct = 30
   StalePct = 5
   ExInj <- InjX
+  ScmpPct = 0
+  ExScmp <- ScmpX0
 INVARIANTS Emit
 PROPERTIES StepOfSpec
